@@ -142,6 +142,10 @@ M = [
       old="        ret.limbs[0] |= Limb::ONE;\n        Ok(Odd(ret))",
       new="        ret.limbs[1] |= Limb::ONE;\n        Ok(Odd(ret))",
       expect="c12.create|<odd::Odd<uint::Uint<_>> as traits::Random>::try_random|odd::Odd"),
+ dict(name="int_checked_div_no_fit_test", prop="C13", file="src/int/div.rs",
+      old="        NonZero::new(*rhs).and_then(|rhs| self.checked_div_rem(&rhs).0.into())\n    }\n\n    /// Computes `self` % `rhs`, returns the remainder.",
+      new="        NonZero::new(*rhs).map(|rhs| self.checked_div_rem(&rhs).0.unwrap_or(Self::MIN))\n    }\n\n    /// Computes `self` % `rhs`, returns the remainder.",
+      expect="c13.gate|int::div::<impl int::Int<_>>::checked_div"),
  # --- C19
  dict(name="random_mod_core_polarity", prop="C19", file="src/uint/rand.rs",
       old="        if n.ct_lt(modulus).into() {\n            break;", new="        if !bool::from(n.ct_lt(modulus)) {\n            break;",
